@@ -31,14 +31,14 @@ void apply_pfaults(const Plan &plan, StreamRef &sr) {
     else if (k == "swap") { if (i + 1 < pg.size()) { std::swap(pg[i], pg[i + 1]); g_stats.inc("fault.page.swap"); } }
     else if (k == "move") { auto x = pg[i]; pg.erase(pg.begin() + i); size_t to = (size_t)((uint64_t)a % (pg.size() + 1)); pg.insert(pg.begin() + to, x); g_stats.inc("fault.page.move"); }
     else if (k == "garbage") { Prng r(b + 1); std::vector<uint8_t> junk((size_t)std::max<int64_t>(1, a)); for (auto &c : junk) c = (uint8_t)r.next(); if (b & 1) for (size_t q = 0; q + 4 < junk.size(); q += 97) memcpy(&junk[q], "OggS", 4); pg.insert(pg.begin() + i, junk); g_stats.inc("fault.page.garbage"); }
-    else if (k == "flip") { size_t bit = (size_t)((uint64_t)a % (pg[i].size() * 8)); pg[i][bit / 8] ^= (uint8_t)(1u << (bit % 8)); g_stats.inc("fault.page.flip_stale_crc"); }
+    else if (k == "flip") { if (pg[i].empty()) continue; size_t bit = (size_t)((uint64_t)a % (pg[i].size() * 8)); pg[i][bit / 8] ^= (uint8_t)(1u << (bit % 8)); g_stats.inc("fault.page.flip_stale_crc"); }
     else if (k == "sflip") { size_t lo = 27 * 8, n = pg[i].size() * 8; if (n > lo) { size_t bit = lo + (size_t)((uint64_t)a % (n - lo)); if (is_page(i) && bit / 8 < (size_t)27 + pg[i][26]) bit = ((size_t)27 + pg[i][26]) * 8 + bit % 8; if (bit / 8 < pg[i].size()) { pg[i][bit / 8] ^= (uint8_t)(1u << (bit % 8)); seal(i); g_stats.inc("fault.page.flip_sealed"); } } }
     else if (k == "gran") { if (is_page(i)) { uint64_t g = (uint64_t)a; for (int q = 0; q < 8; q++) pg[i][6 + q] = (uint8_t)(g >> (8 * q)); seal(i); g_stats.inc("fault.page.granule_lie"); } }
     else if (k == "serial") { if (is_page(i)) { uint32_t s = (uint32_t)a; for (int q = 0; q < 4; q++) pg[i][14 + q] = (uint8_t)(s >> (8 * q)); seal(i); g_stats.inc("fault.page.serial_lie"); } }
     else if (k == "pageno") { if (is_page(i)) { uint32_t s = (uint32_t)a; for (int q = 0; q < 4; q++) pg[i][18 + q] = (uint8_t)(s >> (8 * q)); seal(i); g_stats.inc("fault.page.pageno_lie"); } }
     else if (k == "flags") { if (is_page(i)) { pg[i][5] = (uint8_t)(a & 7); seal(i); g_stats.inc("fault.page.flags_lie"); } }
     else if (k == "noeos") { if (is_page(i)) { pg[i][5] &= (uint8_t)~4; seal(i); g_stats.inc("fault.page.no_eos"); } }
-    else if (k == "tear") { size_t keep = (size_t)((uint64_t)a % pg[i].size()); pg[i].resize(keep); g_stats.inc("fault.page.tear"); }
+    else if (k == "tear") { if (!pg[i].empty()) { size_t keep = (size_t)((uint64_t)a % pg[i].size()); pg[i].resize(keep); g_stats.inc("fault.page.tear"); } }
     else if (k == "trunc") { size_t off = 0; for (size_t j = 0; j < i; j++) off += pg[j].size(); trunc_at = (long)(off + (uint64_t)a % (pg[i].size() + 1)); g_stats.inc("fault.page.truncate"); }
   }
   sr.bytes.clear();
